@@ -42,6 +42,9 @@ namespace ValueFlow
 
     MathLib::bigint truncateIntValue(MathLib::bigint value, size_t value_size, ValueType::Sign dst_sign);
 
+    /** the signedness of a conversion to the type: plain char has the signedness of the platform */
+    ValueType::Sign getConversionSign(const ValueType& vt, const Settings& settings);
+
     /** Does the conversion from integer type src to integer type dst keep every value (of a source that is
      * known to be non-negative, if srcNonNegative is set)? Impossible values of the source are facts about the
      * result only then. */
